@@ -760,3 +760,49 @@ def _flow4():
     out += [f"/-- {header(path, 'MultiIndexConverter._inverse_transform', src, fn)}: size-guarded statements (entries dropped in between) -/",
             f"def multiIndexRestoreCuts : List String := [{', '.join(lean_str(x) for x in cuts)}]"]
     return "\n".join(out) + "\n"
+
+
+@target("flowFacts5", "Facts", ["C10", "C04", "C05"])
+def _flow5():
+    """named cross-set classes forward every constructor argument; per-field accessors of the cross-set base use the field's own preprocessor;
+    the Stacker remembers and re-applies the fitted order of Dataset variables"""
+    out = []
+    # -- every named class hands each of its constructor arguments on to the general class (only `alpha` is fixed by the class)
+    dropped = []
+    for path, cls in (("cross/cca.py", "CCA"), ("cross/mca.py", "MCA"), ("cross/rda.py", "RDA"), ("cross/cca.py", "ComplexCCA"), ("cross/mca.py", "ComplexMCA"),
+                      ("cross/rda.py", "ComplexRDA"), ("cross/cca.py", "HilbertCCA"), ("cross/mca.py", "HilbertMCA"), ("cross/rda.py", "HilbertRDA")):
+        src, tree = load(path)
+        fn = find_func(tree, cls + ".__init__")
+        params = [a.arg for a in fn.args.args + fn.args.kwonlyargs if a.arg != "self"]
+        sup = [n for n in ast.walk(fn) if isinstance(n, ast.Call) and (ast.unparse(n.func) == "super().__init__" or ast.unparse(n.func).endswith("CPCCA.__init__"))]
+        if not sup:
+            raise TranslationError(f"{cls}.__init__: no call of the parent constructor")
+        kws = {k.arg: ast.unparse(k.value) for k in sup[0].keywords if k.arg}
+        if any(k.arg is None for k in sup[0].keywords):
+            kws.update({p: p for p in params})  # **kwargs hands everything on
+        for p_ in params:
+            if kws.get(p_) != p_:
+                dropped.append(f"{cls}.{p_}")
+    out += ["/-- constructor arguments of the named cross-set classes (CCA / MCA / RDA and their Complex / Hilbert variants) that are NOT handed on unchanged "
+            "to the parent constructor -/",
+            f"def namedClassArgsNotForwarded : List String := [{', '.join(lean_str(x) for x in dropped)}]"]
+    # -- scores() of the cross-set base: field 1 through preprocessor1, field 2 through preprocessor2
+    path = "cross/base_model_cross_set.py"
+    src, tree = load(path)
+    fn = find_func(tree, "BaseModelCrossSet.scores")
+    calls = sorted((n.lineno, " ".join(ast.unparse(n).split())) for n in ast.walk(fn)
+                   if isinstance(n, ast.Call) and isinstance(n.func, ast.Attribute) and n.func.attr == "inverse_transform_scores")
+    out += [f"/-- {header(path, 'BaseModelCrossSet.scores', src, fn)}: the calls that restore the sample layout, in order -/",
+            f"def crossScoresRestoreCalls : List String := [{', '.join(lean_str(c) for _, c in calls)}]"]
+    # -- Stacker: variable order of a Dataset
+    path = "preprocessing/stacker.py"
+    src, tree = load(path)
+    fit = find_func(tree, "Stacker.fit")
+    rec = [" ".join(ast.unparse(n).split()) for n in ast.walk(fit) if isinstance(n, ast.Assign) and ast.unparse(n.targets[0]) == "self.vars_in"]
+    tf = find_func(tree, "Stacker.transform")
+    sel = [" ".join(ast.unparse(n).split()) for n in ast.walk(tf) if isinstance(n, ast.Assign) and ast.unparse(n.value) == "X[list(vars_in)]"]
+    out += [f"/-- {header(path, 'Stacker.fit', src, fit)} / `Stacker.transform`: the order of the Dataset variables is recorded at fit and re-applied to the data "
+            "handed to transform -/",
+            f"def stackerVarsRecorded : List String := [{', '.join(lean_str(x) for x in rec)}]",
+            f"def stackerVarsReapplied : List String := [{', '.join(lean_str(x) for x in sel)}]"]
+    return "\n".join(out) + "\n"
